@@ -15,10 +15,7 @@ META = {
     'decides': 'for every int solve code: each StdBackend range predicate is true exactly on its documented range; '
                'the enum constants equal the documented numbers; the objective value is written into the solve '
                'message exactly when the code indicates a solution candidate and an objective value exists',
-    'not_decided': 'the virtual dispatch between the hops of the pass-through (ReportSolution2AMPL -> HandleSolution -> '
-                   'SolutionWriterImpl::HandleSolution -> SolutionAdapter -> WriteSolFile is proved hop by hop: the call made by each hop carries '
-                   'the code it received; that the callee reached is the next hop is C++ dispatch, read off the source); the -! table; '
-                   'overriding of the virtual predicates by solver drivers (grep-level fact only)',
+    'not_decided': 'the virtual dispatch between the hops of the pass-through (proved hop by hop: the call made by each hop carries the code it received; that the callee reached is the next hop is C++ dispatch, read off the source); the -! table; AppSolutionHandlerImpl wantsol branches; overriding of the virtual predicates by solver drivers (grep-level fact only)',
     'not_under_contract': ['BasicSolver::AddSolveResults / SolveResultRegistry', 'AppSolutionHandlerImpl::HandleSolution (wantsol branches)'],
     'assumptions': ['SolveCode() is rendered as a read of one ghost int (it is virtual; no override in include/ or solvers/visitor)',
                     'assert() is kept as a checked obligation under the precondition code != NOT_SET'],
@@ -384,11 +381,23 @@ def replay_message(lead, inputs, obs):
     return p.returncode == 1, (p.stdout + p.stderr)[-2000:], _mdrv[0]
 
 
+def replay_getsolution(lead, inputs, obs):
+    """the real FlatBackend<>::GetSolution over a recording value presolver, for every code and presence combination (adapted from the
+    demonstration of seeded change M65)"""
+    import subprocess
+    from vp import native
+    drv = native.build_driver('c10_getsolution_replay.cc', 'c10_getsolution_replay', native.MP_SOURCES, ['-O0'])[0]
+    p = subprocess.run([drv], capture_output=True, text=True, timeout=600)
+    return p.returncode == 1, (p.stdout + p.stderr)[-2000:], drv
+
+
 def harnesses(tier, seed):
     hs = _harnesses(tier, seed)
     for h in hs:
         if h.name == 'C10.message.objective':
             h.replay = replay_message
+        if h.name == 'C10.FlatBackend.GetSolution':
+            h.replay = replay_getsolution
         if 'passthrough' in h.name and h.replay is None:
             h.replay = replay_passthrough
     return hs
